@@ -16,15 +16,15 @@ Q = lambda tier, q, t: q if tier == "quick" else t
 def c01(run, tier):
     # 1. design level: the axis laws of the property on every reachable document
     cfg = run.cfg("MC_C01.cfg", {"MaxNodes": Q(tier, 5, 6)}, "mc.cfg")
-    ok, out = run.tlc_mc("MC_C01", cfg, "axis-laws", timeout=Q(tier, 300, 1500))
+    ok, out = run.tlc_mc("MC_C01", cfg, "axis-laws", timeout=Q(tier, 1500, 3000))
     if not ok:
         raise_spec(run, "MC_C01 invariant violated", out)
     # 2. spec -> code: every (document, context node, axis, node test)
     cfg = run.cfg("Gen_C01.cfg", {"MaxNodes": Q(tier, 4, 5)}, "gen.cfg")
-    rep = run.tlc_gen_replay("MC_C01", cfg, "steps", timeout=Q(tier, 300, 1800))
+    rep = run.tlc_gen_replay("MC_C01", cfg, "steps", timeout=Q(tier, 1500, 3000))
     run.absorb(rep, VALUE_ASPECTS)
     cfg = run.cfg("Gen_C01.cfg", {"MaxNodes": Q(tier, 4, 5), "EmitFam": '"C01two"'}, "gen2.cfg")
-    rep = run.tlc_gen_replay("MC_C01", cfg, "two-steps", timeout=Q(tier, 400, 2400))
+    rep = run.tlc_gen_replay("MC_C01", cfg, "two-steps", timeout=Q(tier, 1500, 3000))
     run.absorb(rep, VALUE_ASPECTS)
     fixed_two_steps(run, VALUE_ASPECTS)
     # 3. code -> spec: random larger documents and multi-step paths, recorded and judged by Trace_Xsel
@@ -58,18 +58,18 @@ def scale_family(run, fam, label, race=False):
 def fixed_two_steps(run, aspects):
     """MC_Fixed: every pair of axes from every node of one larger hand-written document (elements with two attributes and two
     namespace nodes, nested): the law 'a two-step path is the union over the first step' is checked by TLC, the cases are replayed"""
-    rep = run.tlc_gen_replay("MC_Fixed", run.cfg("MC_Fixed.cfg", {}, "fixed.cfg"), "fixed-two-steps", timeout=600)
+    rep = run.tlc_gen_replay("MC_Fixed", run.cfg("MC_Fixed.cfg", {}, "fixed.cfg"), "fixed-two-steps", timeout=1800)
     run.absorb(rep, aspects)
 
 
 def paths_family(run, tier, fam, mc_cfg, order, value, trace_fam, mc_nodes, gen_nodes):
     scale = '"%s"' % Q(tier, "small", "full")
     cfg = run.cfg(mc_cfg, {"MaxNodes": mc_nodes, "Scale": scale}, "mc.cfg")
-    ok, out = run.tlc_mc("MC_Paths", cfg, "laws", timeout=Q(tier, 400, 2400))
+    ok, out = run.tlc_mc("MC_Paths", cfg, "laws", timeout=Q(tier, 1500, 3000))
     if not ok:
         raise_spec(run, "MC_Paths invariant violated", out)
     cfg = run.cfg("Gen_Paths.cfg", {"MaxNodes": gen_nodes, "Family": '"%s"' % fam, "Scale": scale}, "gen.cfg")
-    rep = run.tlc_gen_replay("MC_Paths", cfg, fam, timeout=Q(tier, 400, 2400))
+    rep = run.tlc_gen_replay("MC_Paths", cfg, fam, timeout=Q(tier, 1500, 3000))
     aspects = set()
     if value:
         aspects |= VALUE_ASPECTS
@@ -89,10 +89,10 @@ def c03(run, tier):
     paths_family(run, tier, "C03", "MC_C03.cfg", True, False, "paths", Q(tier, 4, 5), Q(tier, 5, 6))
     # the C01 step cases judged for order / duplicates as well
     cfg = run.cfg("Gen_C01.cfg", {"MaxNodes": Q(tier, 4, 5)}, "gen01.cfg")
-    rep = run.tlc_gen_replay("MC_C01", cfg, "steps", timeout=Q(tier, 300, 1800))
+    rep = run.tlc_gen_replay("MC_C01", cfg, "steps", timeout=Q(tier, 1500, 3000))
     run.absorb(rep, ORDER_ASPECTS)
     cfg = run.cfg("Gen_C01.cfg", {"MaxNodes": Q(tier, 3, 4), "EmitFam": '"C01two"'}, "gen01two.cfg")
-    rep = run.tlc_gen_replay("MC_C01", cfg, "two-steps", timeout=Q(tier, 400, 2400))
+    rep = run.tlc_gen_replay("MC_C01", cfg, "two-steps", timeout=Q(tier, 1500, 3000))
     run.absorb(rep, ORDER_ASPECTS)
     fixed_two_steps(run, ORDER_ASPECTS)
     scale_family(run, "docs", "large-documents")
@@ -105,7 +105,7 @@ def c18(run, tier):
     fixed_two_steps(run, VALUE_ASPECTS)
     # a struct tag is a sub-query from the node the struct is filled from - context position 1, size 1, whatever slice the struct is
     # an element of (MC_Unmarshal: tags position() / last() / relative and absolute paths in slice elements, nested and embedded members)
-    rep = run.tlc_gen_replay("MC_Unmarshal", run.cfg("MC_Unmarshal.cfg", {}, "gen.unmarshal.cfg"), "unmarshal-subqueries", timeout=600)
+    rep = run.tlc_gen_replay("MC_Unmarshal", run.cfg("MC_Unmarshal.cfg", {}, "gen.unmarshal.cfg"), "unmarshal-subqueries", timeout=1800)
     run.absorb(rep, VALUE_ASPECTS)
 
 
@@ -114,7 +114,7 @@ def values_family(run, tier, fam, overrides=None):
     ov.update(overrides or {})
     cfg = run.cfg("MC_Values.cfg", ov, "gen.%s.cfg" % fam)
     # one TLC run checks the family's laws on the specification and generates the cases
-    rep = run.tlc_gen_replay("MC_Values", cfg, fam, timeout=Q(tier, 400, 2400))
+    rep = run.tlc_gen_replay("MC_Values", cfg, fam, timeout=Q(tier, 1500, 3000))
     run.absorb(rep, VALUE_ASPECTS)
 
 
@@ -128,7 +128,7 @@ def c04(run, tier):
     values_family(run, tier, "C04v")
     values_family(run, tier, "C04s", {"StrLen": Q(tier, 3, 4)})
     cfg = run.cfg("Gen_C01.cfg", {"MaxNodes": Q(tier, 4, 5), "EmitFam": '"C04"'}, "gen04.cfg")
-    rep = run.tlc_gen_replay("MC_C01", cfg, "nodes", timeout=Q(tier, 300, 1800))
+    rep = run.tlc_gen_replay("MC_C01", cfg, "nodes", timeout=Q(tier, 1500, 3000))
     run.absorb(rep, VALUE_ASPECTS)
     fixed_two_steps(run, VALUE_ASPECTS)   # incl. the string-values of a document nested 18 levels deep (family C04.deep)
     scale_family(run, "deepxml", "deep-string-values")   # ... and of documents nested up to 1000 levels deep
@@ -159,15 +159,15 @@ def c10(run, tier):
     # are judged by Trace_Store (the machine's own invariants are checked in the same TLC run)
     cfg = run.cfg("MC_Store.cfg", {"MaxEvents": Q(tier, 6, 7)}, "gen.cfg")
     trace = os.path.join(run.work, "store.ndjson")
-    rep = run.tlc_gen_replay("MC_Store", cfg, "events", harness_args=["-out", trace], timeout=Q(tier, 400, 3000))
-    run.judge_trace(trace, "Trace_Store", "tlc-streams", "C10.store", timeout=Q(tier, 600, 3000))
+    rep = run.tlc_gen_replay("MC_Store", cfg, "events", harness_args=["-out", trace], timeout=Q(tier, 1500, 3000))
+    run.judge_trace(trace, "Trace_Store", "tlc-streams", "C10.store", timeout=Q(tier, 1500, 3000))
     # code -> spec: seeded random larger streams (redundant redeclarations, surplus End, late nodes)
     t2 = os.path.join(run.work, "store-random.ndjson")
     p = run.harness_cmd(["store-record", "-n", str(Q(tier, 400, 4000)), "-out", t2], "store-record")
     if p.returncode != 0:
         from infra import Infra
         raise Infra("store-record failed: " + p.stderr[-1000:])
-    run.judge_trace(t2, "Trace_Store", "random-streams", "C10.store", timeout=Q(tier, 600, 3000))
+    run.judge_trace(t2, "Trace_Store", "random-streams", "C10.store", timeout=Q(tier, 1500, 3000))
     # the same with 8 goroutines building trees at once (race-built): a tree holds its own stream's nodes and namespaces only
     t2c = os.path.join(run.work, "store-concurrent.ndjson")
     p = run.harness_cmd(["store-record", "-n", str(Q(tier, 400, 3000)), "-sub", "7", "-out", t2c], "store-record-concurrent", race=True,
@@ -184,10 +184,10 @@ def c10(run, tier):
         from infra import Infra
         raise Infra("store-record (concurrent) failed: " + p.stderr[-1000:])
     if p.returncode == 0:
-        run.judge_trace(t2c, "Trace_Store", "concurrent-streams", "C10.store", timeout=Q(tier, 600, 3000))
+        run.judge_trace(t2c, "Trace_Store", "concurrent-streams", "C10.store", timeout=Q(tier, 1500, 3000))
     # stack space: long flat streams in a child process, call depth sampled inside Pull()
     t3 = os.path.join(run.work, "flat.ndjson")
-    p = run.harness_cmd(["flat", "-n", str(Q(tier, 100000, 1000000)), "-out", t3], "flat", timeout=600)
+    p = run.harness_cmd(["flat", "-n", str(Q(tier, 100000, 1000000)), "-out", t3], "flat", timeout=1800)
     if p.returncode != 0:
         from infra import Infra
         raise Infra("flat driver failed: " + p.stderr[-1000:])
@@ -216,14 +216,14 @@ def c10_replay(run, path):
 def names_family(run, tier, fam, base_cfg):
     nodes = Q(tier, 4, 5) if fam == "C11" else Q(tier, 5, 6)
     cfg = run.cfg(base_cfg, {"Family": '"%s"' % fam, "MaxNodes": nodes}, "gen.%s.cfg" % fam)
-    rep = run.tlc_gen_replay("MC_Names", cfg, fam, timeout=Q(tier, 400, 3000))
+    rep = run.tlc_gen_replay("MC_Names", cfg, fam, timeout=Q(tier, 1500, 3000))
     run.absorb(rep, VALUE_ASPECTS)
 
 
 def c11(run, tier):
     names_family(run, tier, "C11", "MC_Names.cfg")
     # the bindings must also reach the sub-queries of Unmarshal (struct tags using the prefix, the variable and the user functions of the call)
-    rep = run.tlc_gen_replay("MC_Unmarshal", run.cfg("MC_Unmarshal.cfg", {}, "gen.unmarshal.cfg"), "unmarshal-bindings", timeout=600)
+    rep = run.tlc_gen_replay("MC_Unmarshal", run.cfg("MC_Unmarshal.cfg", {}, "gen.unmarshal.cfg"), "unmarshal-bindings", timeout=1800)
     run.absorb(rep, VALUE_ASPECTS)
     for i in range(Q(tier, 1, 4)):
         run.trace_validate(["-fam", "bindings", "-n", str(Q(tier, 2500, 20000)), "-sub", str(i)], "bindings%d" % i)
@@ -252,9 +252,9 @@ def c13(run, tier):
         run.env["VERIF_HIST_SAMPLE"] = "8"
         run.notes.append("thorough: one history in eight (hash of the history and the seed) is executed and judged")
         run.exhaustive = False
-    run.tlc_gen_replay("Xsel", cfg, "histories", harness_args=["-out", trace], timeout=Q(tier, 400, 3000))
+    run.tlc_gen_replay("Xsel", cfg, "histories", harness_args=["-out", trace], timeout=Q(tier, 1500, 3000))
     run.env.pop("VERIF_HIST_SAMPLE", None)
-    run.trace_validate([], "histories", frame_aspect=True, order_aspect=True, trace_file=trace, timeout=Q(tier, 600, 3000))
+    run.trace_validate([], "histories", frame_aspect=True, order_aspect=True, trace_file=trace, timeout=Q(tier, 1500, 3000))
     # code -> spec: long random sessions over shared cursors, compiled expressions and result slices
     for i in range(Q(tier, 1, 4)):
         run.trace_validate(["-n", str(Q(tier, 2500, 15000)), "-sub", str(i)], "sessions%d" % i, frame_aspect=True, order_aspect=True, record_cmd="session-record")
@@ -262,7 +262,7 @@ def c13(run, tier):
     # process, thousands of expressions that differ only inside their literals (every string of <= 3 characters over an alphabet
     # with several kinds of white space) and every value is judged
     cfg = run.cfg("MC_Values.cfg", {"Family": '"C07u"'}, "gen.literals.cfg")
-    rep = run.tlc_gen_replay("MC_Values", cfg, "literal-history", timeout=Q(tier, 600, 3000), harness_args=["-workers", "1"])
+    rep = run.tlc_gen_replay("MC_Values", cfg, "literal-history", timeout=Q(tier, 1500, 3000), harness_args=["-workers", "1"])
     run.absorb(rep, VALUE_ASPECTS)
     # repeats agree also on documents of tens of thousands of nodes (every query of the scale pool is evaluated twice)
     scale_family(run, "docs", "large-documents")
@@ -270,7 +270,7 @@ def c13(run, tier):
     scale_family(run, "repeat", "repeated-evaluation")
     # what Unmarshal fills depends on the target type and the nodes, not on the calls made before: all calls of MC_Unmarshal in one
     # process (among them two declared struct types of the same name with different tags, used one after the other)
-    rep = run.tlc_gen_replay("MC_Unmarshal", run.cfg("MC_Unmarshal.cfg", {}, "gen.unmarshal.cfg"), "unmarshal-history", timeout=600, harness_args=["-workers", "1"])
+    rep = run.tlc_gen_replay("MC_Unmarshal", run.cfg("MC_Unmarshal.cfg", {}, "gen.unmarshal.cfg"), "unmarshal-history", timeout=1800, harness_args=["-workers", "1"])
     run.absorb(rep, VALUE_ASPECTS)
 
 
@@ -305,7 +305,7 @@ def c14(run, tier):
     from infra import Infra
     # ---------------- library ----------------
     cfg = run.cfg("MC_Threads.cfg", {"LegacyUnionInPlace": "TRUE", "EmitOn": "FALSE", "MaxSteps": 3}, "legacy.cfg")
-    ok, out = run.tlc_mc("Xsel", cfg, "legacy-must-fail", expect_violation=True, timeout=600)
+    ok, out = run.tlc_mc("Xsel", cfg, "legacy-must-fail", expect_violation=True, timeout=1800)
     if ok:
         raise_spec(run, "Xsel (2 threads) with LegacyUnionInPlace did not violate Frame", out)
     # workloads from the 2-thread model, run by real goroutines under the race detector
@@ -319,7 +319,7 @@ def c14(run, tier):
     run.env["GORACE"] = "log_path=%s halt_on_error=0 atexit_sleep_ms=0 exitcode=0" % racelog
     run.env["VERIF_CONC_REPS"] = str(Q(tier, 6, 40))
     try:
-        rep = run.tlc_gen_replay("Xsel", cfg, "workloads", timeout=Q(tier, 600, 3000), harness_args=["-workers", "4"])
+        rep = run.tlc_gen_replay("Xsel", cfg, "workloads", timeout=Q(tier, 1500, 3000), harness_args=["-workers", "4"])
     finally:
         run.harness = saved
     run.absorb(rep, VALUE_ASPECTS | {"frame", "order"})
@@ -331,15 +331,15 @@ def c14(run, tier):
     try:
         for fam in Q(tier, ["C07t", "C07b", "C06", "C05"], ["C07t", "C07b", "C07u", "C07s", "C06", "C05", "C04n", "C04s", "C04v"]):
             cfg = run.cfg("MC_Values.cfg", {"Family": '"%s"' % fam}, "conc.%s.cfg" % fam)
-            rep = run.tlc_gen_replay("MC_Values", cfg, "conc-" + fam, timeout=Q(tier, 600, 3000), harness_args=["-workers", "2"])
+            rep = run.tlc_gen_replay("MC_Values", cfg, "conc-" + fam, timeout=Q(tier, 1500, 3000), harness_args=["-workers", "2"])
             run.absorb(rep, VALUE_ASPECTS)
         # ... lang() over small documents carrying xml:lang in several spellings (many different tags are folded at once)
         cfg = run.cfg("MC_Lang.cfg", {"MaxNodes": 4}, "conc.lang.cfg")
-        rep = run.tlc_gen_replay("MC_Names", cfg, "conc-lang", timeout=900, harness_args=["-workers", "4"])
+        rep = run.tlc_gen_replay("MC_Names", cfg, "conc-lang", timeout=1800, harness_args=["-workers", "4"])
         run.absorb(rep, VALUE_ASPECTS)
         # ... and the axes: every pair of axes from a node of the fixed 31-node document, the ~470 cases of a line evaluated at once
         # on a tree that was built just before - no serial warm-up, so lazily built shared state is first touched concurrently
-        rep = run.tlc_gen_replay("MC_Fixed", run.cfg("MC_Fixed.cfg", {}, "conc.fixed.cfg"), "conc-axes", timeout=900, harness_args=["-workers", "2"])
+        rep = run.tlc_gen_replay("MC_Fixed", run.cfg("MC_Fixed.cfg", {}, "conc.fixed.cfg"), "conc-axes", timeout=1800, harness_args=["-workers", "2"])
         run.absorb(rep, VALUE_ASPECTS | {"order"})
     finally:
         run.harness = saved
@@ -362,7 +362,7 @@ def c14(run, tier):
     # ---------------- command-line tool ----------------
     for nf, n, conc in [(3, 2, "TRUE"), (2, 1, "FALSE"), (3, 3, "TRUE")] + Q(tier, [], [(4, 2, "TRUE"), (4, 3, "TRUE")]):
         cfg = run.cfg("CliPool.cfg", {"NF": nf, "N": n, "Conc": conc, "Prints": "{1, %d}" % nf}, "pool.%d.%d.cfg" % (nf, n))
-        ok, out = run.tlc_mc("CliPool", cfg, "clipool-%d-%d" % (nf, n), timeout=600, deadlock_check=True)
+        ok, out = run.tlc_mc("CliPool", cfg, "clipool-%d-%d" % (nf, n), timeout=1800, deadlock_check=True)
         if not ok:
             raise_spec(run, "CliPool violates its own properties", out)
     if tier == "thorough":
@@ -559,7 +559,7 @@ def c16(run, tier):
     # white space / number spellings / escapes), compares tree and Pull stream, and tries every truncation + mutations
     cfg = run.cfg("MC_Json.cfg", {"Depth": Q(tier, 2, 3), "Width": Q(tier, 2, 2)}, "gen.cfg")
     trace = os.path.join(run.work, "json.ndjson")
-    rep = run.tlc_gen_replay("MC_Json", cfg, "values", harness_args=["-out", trace], timeout=Q(tier, 400, 3000))
+    rep = run.tlc_gen_replay("MC_Json", cfg, "values", harness_args=["-out", trace], timeout=Q(tier, 1500, 3000))
     run.absorb(rep, ADAPTER_ASPECTS)
     run.judge_trace(trace, "Trace_Store", "json-trees", "C16.store", timeout=1800)
     # code -> spec: random values (depth <= 4), Pull streams judged against DocEvents by the trace specification
@@ -574,7 +574,7 @@ def c17(run, tier):
     import os
     cfg = run.cfg("MC_Html.cfg", {"MaxNodes": Q(tier, 5, 6)}, "gen.cfg")
     trace = os.path.join(run.work, "html.ndjson")
-    rep = run.tlc_gen_replay("MC_Html", cfg, "dom-shapes", harness_args=["-out", trace], timeout=Q(tier, 400, 3000))
+    rep = run.tlc_gen_replay("MC_Html", cfg, "dom-shapes", harness_args=["-out", trace], timeout=Q(tier, 1500, 3000))
     run.absorb(rep, ADAPTER_ASPECTS)
     run.judge_trace(trace, "Trace_Store", "dom-shapes", "C17.trace", timeout=1800, max_lines=120000)
     record_and_judge(run, "html-record", ["-n", str(Q(tier, 1500, 9000))], "tag-soup", "C17.trace", ADAPTER_ASPECTS)
@@ -593,14 +593,14 @@ def c09(run, tier):
     for label, ov in runs:
         cfg = run.cfg("MC_Xml.cfg", ov, "gen.%s.cfg" % label)
         trace = os.path.join(run.work, "xml.%s.ndjson" % label)
-        rep = run.tlc_gen_replay("MC_Xml", cfg, label, harness_args=["-out", trace], timeout=Q(tier, 600, 3600), heap=Q(tier, "8g", "24g"))
+        rep = run.tlc_gen_replay("MC_Xml", cfg, label, harness_args=["-out", trace], timeout=Q(tier, 1500, 3600), heap=Q(tier, "8g", "24g"))
         run.absorb(rep, ADAPTER_ASPECTS)
         run.judge_trace(trace, "Trace_Store", "xml-trees-" + label, "C09.store", timeout=3000, max_lines=150000)
 
 
 def c19(run, tier):
     cfg = run.cfg("MC_Unmarshal.cfg", {}, "gen.cfg")
-    rep = run.tlc_gen_replay("MC_Unmarshal", cfg, "calls", timeout=600)
+    rep = run.tlc_gen_replay("MC_Unmarshal", cfg, "calls", timeout=1800)
     run.absorb(rep, VALUE_ASPECTS)
     # code -> spec: sessions that mix Exec, re-slicing and Unmarshal with randomly built target types (reflect) on random
     # documents; every Unmarshal event is judged by Trace_Xsel with Unmarshal.tla (filled value or demanded error, frame condition)
@@ -616,7 +616,7 @@ def c20(run, tier):
     run.env["XSEL_CLI"] = binary
     run.env["XSEL_CLI_WORK"] = work
     cfg = run.cfg("MC_Cli.cfg", {}, "gen.cfg")
-    rep = run.tlc_gen_replay("MC_Cli", cfg, "runs", timeout=900, harness_args=["-workers", "8"])
+    rep = run.tlc_gen_replay("MC_Cli", cfg, "runs", timeout=1800, harness_args=["-workers", "8"])
     run.absorb(rep, VALUE_ASPECTS | {"output", "diag", "cli"})
     # code -> spec: random argument trees (nested directories, every file class, symbolic links, standard input) and random flags
     # incl. -t html; per entry the prefixed stdout lines, the diagnostics and the shape of the library's result are logged and
@@ -642,7 +642,7 @@ def c20_replay(run, path):
 def c08(run, tier):
     for alpha, n in [("core", Q(tier, 3, 4)), ("ops", Q(tier, 3, 4)), ("paths", Q(tier, 3, 4)), ("lex", Q(tier, 3, 4)), ("split", 4)]:
         cfg = run.cfg("MC_Grammar.cfg", {"Alphabet": '"%s"' % alpha, "MaxLen": n}, "gen.%s.cfg" % alpha)
-        rep = run.tlc_gen_replay("MC_Grammar", cfg, alpha, timeout=Q(tier, 600, 3600), harness_args=["-workers", "1"])
+        rep = run.tlc_gen_replay("MC_Grammar", cfg, alpha, timeout=Q(tier, 1500, 3600), harness_args=["-workers", "1"])
         run.absorb(rep, VALUE_ASPECTS | {"accepts-invalid"})
     for i in range(Q(tier, 1, 4)):
         run.trace_validate(["-fam", "mixed", "-n", str(Q(tier, 2500, 20000)), "-sub", str(200 + i)], "renderings%d" % i)
@@ -655,14 +655,14 @@ def c15(run, tier):
     # Unmarshal call are replayed here for totality only (panic / nil-nil); malformed documents are part of C09/C16
     for alpha in ["core", "lex"]:
         cfg = run.cfg("MC_Grammar.cfg", {"Alphabet": '"%s"' % alpha, "MaxLen": Q(tier, 3, 4)}, "gen.%s.cfg" % alpha)
-        rep = run.tlc_gen_replay("MC_Grammar", cfg, alpha, timeout=Q(tier, 600, 3600), harness_args=["-workers", "1"])
+        rep = run.tlc_gen_replay("MC_Grammar", cfg, alpha, timeout=Q(tier, 1500, 3600), harness_args=["-workers", "1"])
         run.absorb(rep, {"panic", "nil-nil"})
     cfg = run.cfg("MC_Unmarshal.cfg", {}, "genu.cfg")
-    rep = run.tlc_gen_replay("MC_Unmarshal", cfg, "unmarshal", timeout=600)
+    rep = run.tlc_gen_replay("MC_Unmarshal", cfg, "unmarshal", timeout=1800)
     run.absorb(rep, {"panic", "nil-nil"})
     # seeded mutation fuzzing of every public entry point, in child processes
     out = os.path.join(run.work, "fuzz.json")
-    p = run.harness_cmd(["fuzz", "-n", str(Q(tier, 200000, 4000000)), "-workers", "16", "-report", out], "fuzz", timeout=Q(tier, 900, 7200))
+    p = run.harness_cmd(["fuzz", "-n", str(Q(tier, 200000, 4000000)), "-workers", "16", "-report", out], "fuzz", timeout=Q(tier, 1800, 7200))
     if p.returncode != 0 or not os.path.exists(out):
         raise Infra("fuzz driver failed: " + (p.stdout + p.stderr)[-1500:])
     fz = json.load(open(out))
